@@ -21,7 +21,11 @@ var allKinds = []refcose.Kind{refcose.KSign1, refcose.KSign1Untagged, refcose.KS
 // decodeAny runs the library decoder of the given kind on a private copy of
 // wire and returns the decoded value.
 func decodeAny(kind refcose.Kind, wire []byte) (any, error) {
-	in := append([]byte{}, wire...)
+	return decodeAnyFrom(kind, append([]byte{}, wire...))
+}
+
+// decodeAnyFrom decodes from the caller's buffer itself (no private copy).
+func decodeAnyFrom(kind refcose.Kind, in []byte) (any, error) {
 	switch kind {
 	case refcose.KSign1:
 		v := &cose.Sign1Message{}
